@@ -32,7 +32,8 @@ def _ws_configs(tier):
     return out
 
 
-@harness("water_stress", modules=["aquacrop.solution.water_stress"], props=["C17", "C16"], configs=_ws_configs, goals=["partial-stress"])
+@harness("water_stress", modules=["aquacrop.solution.water_stress"], props=["C17", "C16"], configs=_ws_configs, goals=["partial-stress"],
+         abstract_nl=True, timeout_ms=10000)
 def h_ws(ctx, cfg):
     crop = real_crop(cfg["crop"])
     taw = 100.0
